@@ -171,6 +171,16 @@ func genC13() {
 	const pth = "pkg/build/paths.go"
 	epd := findFunc(pth, "", "ensureParentDirectory")
 	num("mut_parent_perm", c13CallArg(epd, pth+":ensureParentDirectory", "MkdirAll", 1), "mode of missing parents of a mutated path")
+	// mutateEmptyFile: target := mut.Path (finding C13-F6) or filepath.Clean(mut.Path) (fixes/C13-F6.patch)
+	if tgt := c13FindDefine(findFunc(pth, "", "mutateEmptyFile"), "target"); tgt == nil {
+		fail("%s: mutateEmptyFile has no target := ...", pth)
+	} else {
+		txt := exprText(tgt)
+		if txt != "mut.Path" && txt != "filepath.Clean(mut.Path)" {
+			fail("%s: mutateEmptyFile's target is neither mut.Path nor filepath.Clean(mut.Path): %s", pth, txt)
+		}
+		g.def("empty_file_path_cleaned", "bool", fmt.Sprint(txt == "filepath.Clean(mut.Path)"), "mutateEmptyFile: target := "+txt+" at "+g.pos(tgt))
+	}
 	// the mutator table
 	if e := findValue(pth, "pathMutators"); e != nil {
 		cl, ok := e.(*ast.CompositeLit)
@@ -238,6 +248,25 @@ func genC13() {
 		} else {
 			str("validate_home_prefix", be.X, "Validate's default home prefix")
 		}
+	}
+	// which characters Validate refuses in which account field: the strings.ContainsAny(<expr>, <literal>)
+	// tests inside Validate (none today: finding C13-F5; fixes/C13-F5.patch adds them)
+	if vf != nil {
+		var items []string
+		ast.Inspect(vf, func(n ast.Node) bool {
+			c, ok := n.(*ast.CallExpr)
+			if !ok || exprText(c.Fun) != "strings.ContainsAny" || len(c.Args) != 2 {
+				return true
+			}
+			lit, ok := strLit(c.Args[1])
+			if !ok {
+				fail("%s: Validate: strings.ContainsAny with a non-literal character set", ic)
+				return true
+			}
+			items = append(items, fmt.Sprintf("(%s, %s)", coqStr(exprText(c.Args[0])), coqStr(lit)))
+			return true
+		})
+		g.def("validate_forbidden", "list (string * string)", "["+c13JoinSemi(items)+"]", "strings.ContainsAny(field, chars) tests in Validate at "+g.pos(vf))
 	}
 	// the order of the filesystem-shaping steps of buildImage (after the packages are installed)
 	const bi = "pkg/build/build_implementation.go"
